@@ -60,11 +60,11 @@ def main():
                  'py2lean translator for the three expression analyses; hand-written model of check_plurals / parse_plural_forms tied by the check-plurals stream',
                  'tags._escape of the registry strings and message_repr are inputs of the model (C02\'s concern)'],
         explanation='Proved for all inputs (model), Props/C07.lean: header_regex_pin + scanner_is_search + reader_is_reference (the hand-written header scanner '
-                    'computes pattern.search of the LIVE pattern\'s re._parser tree under a reference backtracking semantics: leftmost start, greedy, groups), '
+                    'computes pattern.search of the LIVE pattern\'s re._parser tree under a reference backtracking semantics: leftmost start, greedy, groups; decl_is_text / no_decl_is_text: the same reading in plain text), '
                     'syntax_tag_iff, junk_tag_iff (syntax-error iff no leftmost declaration whose expression parses; junk tags iff text before/after, quoting it), '
                     'window_report (= window_tag_iff + window_tag_least + gap_claim_true on the whole method: one diagnostic iff some i < 200 fails or is >= nplurals, for the '
                     'LEAST i with its true outcome; every "f(x) != range" claim is about a non-empty range no member of which is produced by any m < 2^32), format_range_sound, '
-                    'nplurals_tag_iff (+ scan_spec), clean_decl_silent, clean_decl_no_own_diagnostic, registry_never_unusual, registry_string_never_unusual, '
+                    'nplurals_tag_iff (+ scan_spec), clean_decl_silent, clean_decl_no_own_diagnostic, registry_never_unusual, registry_string_never_unusual, unusual_tag_iff (both directions), '
                     'shipped_registry_clean (kernel evaluation over the dump of data/languages: every declaration parses strictly, is total/in range/onto on the window, '
                     'no language has two declarations with one nplurals), registry_declaration_silent, checkPlurals_nocrash (whole method, any input, shipped registry). '
                     'Outstanding: "valid expression" is the model\'s parser (C04 ties it to the grammar); the hint extra and tags._escape are inputs of the model.')
